@@ -221,7 +221,7 @@ macro_rules! dft_backend {
             }
             let mut s = Opd::new(n, p.acols, 1, 0, p.acol, 8, f ^ 4);
             s.write_at(p.acol, &vec![p.ds.clone()]);
-            let mut sbuf = ABuf::new(1 << 20, f ^ 5);
+            let mut sbuf = ABuf::new((1usize << 20).max(n * 256), f ^ 5); // the harness-side scratch grows with the ring (NTT120 inverse transforms at N = 2^16 take 2 MiB)
             let (rc, ac, bc) = (p.rcol, p.acol, p.bcol);
             let mask: i64 = -(1i64 << p.maskt);
             let mut snap_res: Vec<u8> = vec![];
